@@ -362,6 +362,12 @@ pub fn run(ctx: &Ctx) -> Report {
         run_one(&mut rep, &mut rng, b, true);
     }
     run_big(&mut rep, &mut rng);
+    // lookups must use the type's 8-byte tag even if the type overrides the defaulted slice constant;
+    // lookups through a state object that has just re-created a header in front of stale entries
+    crate::tlv::override_slice_scenario(&mut rep);
+    for k in 0..ctx.scale(600, 6000) {
+        crate::tlv::same_object_scenario(&mut rep, "C02", &mut rng, k % 2 == 0, false);
+    }
     if ctx.tier_thorough {
         // all strings of length <= 2 and all single-byte mutations of a 3-entry slab
         for a in 0..=255u8 {
